@@ -26,7 +26,10 @@ func (h *Hub) HandleConnectionClosed(connection api.ShipConnectionInterface, han
 	if existingC := h.connectionForSKI(remoteSki); existingC != nil {
 		if existingC.DataHandler() == connection.DataHandler() {
 			h.muxCon.Lock()
-			delete(h.connections, connection.RemoteSKI())
+			// a new connection may have been registered since the check above, do not drop its entry
+			if currentC, ok := h.connections[connection.RemoteSKI()]; ok && currentC.DataHandler() == connection.DataHandler() {
+				delete(h.connections, connection.RemoteSKI())
+			}
 			h.muxCon.Unlock()
 		}
 
